@@ -1,4 +1,4 @@
-//! C10 finding `c10:array_eq:comparator-consistency+view:ree`
+//! C10 finding `c10:array_eq:comparator-consistency:view-child`
 //! arrow-data `byte_view_equal(lhs, rhs, lhs_start, rhs_start, len)` tests `lhs.is_null(idx)` with the
 //! range-relative idx instead of `lhs_start + idx`: when a range does not start at 0 and slot `idx` of the
 //! whole array is null, the comparison of that position is skipped. Reached through run-end arrays
